@@ -1,6 +1,7 @@
 package main
 
 import (
+	lisp "github.com/jig/lisp"
 	"fmt"
 
 	"github.com/jig/lisp/types"
@@ -70,6 +71,12 @@ func (g *c12gen) tv(depth int, inSeq bool) (types.MalType, []types.MalType, []ty
 				g.hist["list-only-splice"]++
 			}
 		}
+		// (quote ...) inside a template is an ordinary list: what is unquoted below it is still substituted ('~x)
+		if g.r.Intn(6) == 0 {
+			g.hist["list-headed-by-the-symbol-quote"]++
+			ts = append([]types.MalType{S("quote")}, ts...)
+			vs = append([]types.MalType{S("quote")}, vs...)
+		}
 		return types.List{Val: ts}, []types.MalType{types.List{Val: vs}}, tr
 	case 10, 11: // vector
 		g.hist["vector"]++
@@ -113,6 +120,31 @@ func runC12(tier string, seed uint64, rep *Report) {
 		want := val(v[0], tr...)
 		if line != want {
 			rep.Violate(idx, fmt.Sprintf("quasiquote did not build the template substitution: got %q want %q", line, want), Show(prog))
+		}
+	}
+	// (a') the same value spliced several times into one template, from text (lists built by the reader have spare
+	// capacity): every splice is a copy; and quote inside a template
+	for _, c := range []struct{ src, want string }{
+		{"(let [xs '(1 2 3)] `((~@xs :a) (~@xs :b)))", "((1 2 3 :a) (1 2 3 :b))"},
+		{"(let [xs '(1 2 3 4 5)] `((~@xs :a) (~@xs :b) (~@xs)))", "((1 2 3 4 5 :a) (1 2 3 4 5 :b) (1 2 3 4 5))"},
+		{"(let [xs [1 2 3]] `[(~@xs :a) [~@xs :b] ~@xs])", "[(1 2 3 :a) [1 2 3 :b] 1 2 3]"},
+		{"(do (defmacro call-both (fn [& fargs] `(list (~@fargs 1) (~@fargs 2)))) (call-both + 10))", "(11 12)"},
+		{"(do (defmacro call-both (fn [& fargs] `(list (~@fargs 1) (~@fargs 2)))) (macroexpand (call-both + 10)))", "(list (+ 10 1) (+ 10 2))"},
+		{"(let [x 5] `(a '~x))", "(a (quote 5))"},
+		{"(let [xs '(1 2)] `(a '(~@xs 3)))", "(a (quote (1 2 3)))"},
+		{"(do (defmacro name-and-value (fn [form] `(list '~form ~form))) (name-and-value (+ 1 2)))", "((+ 1 2) 3)"},
+		{"(let [x 7] (quasiquote [unquote x]))", "[unquote x]"},
+	} {
+		for _, module := range []bool{false, true} {
+			core, _, o := evalText(c.src, module)
+			idx := rep.Add("P n", "V n | l 0 ", c.src, true, "text-template")
+			got := "?"
+			if o.Err == nil && o.Panic == nil {
+				got = lisp.PRINT(o.Val)
+			}
+			if got != c.want {
+				rep.Violate(idx, fmt.Sprintf("template read from text: got %s (%s), the substitution gives %s", got, core, c.want), c.src)
+			}
 		}
 	}
 	// (b) macros
